@@ -381,6 +381,59 @@ def r13(ctx, rep):
                   "`from s\"SELECT dept, MAX(salary) ..\"` loses a result column", file=f["file"], line=n["l"], fn=f["path"])
 
 
+def r14(ctx, rep):
+    """`determine_select_columns` says which columns a pipeline yields, by its last transform: every SELECT list, every split and the result
+    columns themselves start from it."""
+    import re
+    rep.rule("C05.R14", "the frame of a pipeline by its last transform: From = the relation's columns in order; Join = the frame so far, then the joined relation's columns; "
+             "Select = its list; Aggregate = keys then aggregates; anything else = the frame of what precedes", floor=5)
+    syn = ctx.syn
+    f = syn.fn("AnchorContext::determine_select_columns", crate="prqlc")
+    loc = dict(file=f["file"], fn=f["path"])
+    # role: the (last, rest) pair of `split_last()`
+    last = rest = None
+    for n in walk(f["body"]):
+        if n.get("k") in ("let", "local") and "split_last" in show(n.get("e") or n.get("init") or {}, maxdepth=6):
+            names = [x["n"] for x in walk(n["pat"]) if x.get("k") == "p_ident"]
+            if len(names) == 2:
+                last, rest = names
+    if last is None:
+        raise AnchorMissing("determine_select_columns: `(last, rest) = pipeline.split_last()`")
+    m = next((m for m in matches_of(f["body"]) if show(m["e"]).lstrip("*&") == last), None)
+    if m is None:
+        raise AnchorMissing("determine_select_columns: match over the last transform")
+    rec = f"self.determine_select_columns({rest})"
+    seen = set()
+    for a in m["arms"]:
+        alts = pat_alts(a["pat"])
+        body = a["body"]
+        t = show_stmts(body, maxdepth=12) if body.get("k") == "block" else show(body, maxdepth=12)
+        heads = []
+        for alt in alts:
+            vs = [last_seg(x["p"]) for x in walk(alt) if x.get("k") in ("p_ts", "p_struct", "p_path") and last_seg(x["p"]) in ("From", "Join", "Select", "Aggregate")]
+            heads.append(vs[-1] if vs else ("_" if alt.get("k") == "p_wild" else "?"))
+        for h in heads:
+            seen.add(h)
+            bound = [x["n"] for alt in alts for x in walk(alt) if x.get("k") == "p_ident"] + [x[0] for alt in alts for y in walk(alt) if y.get("k") == "p_struct" for x in y["f"]]
+            if h == "From":
+                ok = re.search(r"\.table_ref\.columns\.iter\(\)\.map\(\|\(_, (\w+)\)\| \*\1\)\.collect", t) is not None and not re.search(r"\.(rev|sorted|sort|skip|take|filter|dedup|unique)\w*\(", t)
+                rep.check(ok, "frame:From", f"a pipeline ending in From yields the ids of the relation's columns, all of them, in order; found `{t[:160]}`", line=a["l"], **loc)
+            elif h == "Join":
+                first = re.search(r"let (?:mut )?(\w+) = " + re.escape(rec), t)
+                ok = first is not None and re.search(re.escape(first.group(1)) + r"\.extend\((\w+)\.iter\(\)\.map\(\|\(_, (\w+)\)\| \*\2\)\)", t) is not None \
+                    and t.rstrip().rstrip("}").rstrip().endswith(first.group(1)) and not re.search(r"\.(insert|splice|rev|sort|dedup|retain|truncate)\w*\(", t) if first else False
+                rep.check(ok, "frame:Join", f"a pipeline ending in Join yields the frame of what precedes, extended by the joined relation's columns (left first, nothing removed); found `{t[:200]}`", line=a["l"], **loc)
+            elif h == "Select":
+                ok = len(bound) >= 1 and t.replace(" ", "") in (f"{bound[0]}.clone()", f"{bound[0]}.to_vec()")
+                rep.check(ok, "frame:Select", f"a pipeline ending in Select yields exactly its list; found `{t[:120]}`", line=a["l"], **loc)
+            elif h == "Aggregate":
+                ok = re.sub(r"\s", "", t) in ("[partition.clone(),compute.clone()].concat()",) or re.fullmatch(r"partition\.iter\(\)\.chain\((&?compute|compute\.iter\(\))\)\.(cloned|copied)\(\)\.collect\w*\(\)", re.sub(r"\s", "", t)) is not None
+                rep.check(ok, "frame:Aggregate", f"a pipeline ending in Aggregate yields the group keys, then the aggregates; found `{t[:120]}`", line=a["l"], **loc)
+            elif h == "_":
+                rep.check(t.strip() == rec, "frame:other", f"any other transform leaves the frame to what precedes (`{rec}`); found `{t[:120]}`", line=a["l"], **loc)
+    rep.check({"From", "Join", "Select", "Aggregate", "_"} <= seen, "frame:arms", f"determine_select_columns decides by From / Join / Select / Aggregate / other; found arms {sorted(seen)}", line=f["l"], **loc)
+
+
 def run(ctx, rep):
-    for r in (r1, r2, r3, r4, r5, r6, r7, r8, r9, r10, r12, r13):
+    for r in (r1, r2, r3, r4, r5, r6, r7, r8, r9, r10, r12, r13, r14):
         rep.guard(r, ctx)
